@@ -576,6 +576,13 @@ def _decode_part(info, raw_chunks, per_chunk):
     return bytes(part.decode(b"".join(raw_chunks)))
 
 
+_B64 = frozenset(b"ABCDEFGHIJKLMNOPQRSTUVWXYZabcdefghijklmnopqrstuvwxyz0123456789+/=")
+
+
+def b64_count(chunk: bytes) -> int:
+    return sum(1 for c in chunk if c in _B64)
+
+
 def qp_law_ok(content: bytes) -> bool:
     return binascii.a2b_qp(binascii.b2a_qp(content)) == content
 
@@ -642,9 +649,10 @@ def oracle_roundtrip(spec, origs, wparts, wire, size, rec, sched):
                     dec = _decode_part(info, info["chunks"], per_chunk)
                     if dec != origs[i]:
                         bad.append(("decode", f"part {i}: decoded content differs from the original (cte={cte}, ce={ce}, api={a}, per_chunk={per_chunk})",
-                                    {"part": i, "api": a}))
+                                    {"part": i, "api": a, "per_chunk": per_chunk, "b64_counts": [b64_count(c) for c in info["chunks"]]}))
                 except Exception as e:  # noqa
-                    bad.append(("decode", f"part {i}: decoding raised {e!r} (cte={cte}, ce={ce}, api={a}, per_chunk={per_chunk})", {"part": i, "api": a}))
+                    bad.append(("decode", f"part {i}: decoding raised {e!r} (cte={cte}, ce={ce}, api={a}, per_chunk={per_chunk})",
+                                {"part": i, "api": a, "per_chunk": per_chunk, "b64_counts": [b64_count(c) for c in info["chunks"]]}))
         elif a[0] == "C":
             raw = b"".join(info["chunks"])
             if not wparts[i][1].startswith(raw):
@@ -701,7 +709,9 @@ def segs_from_lens(wire, lens):
 
 def model_writer_lines(boundary: bytes, wparts):
     ps = ",".join("%s:%s:%d" % (fw.hexs(h), fw.hexs(b), 1 if i else 0) for h, b, i in wparts) or "-"
-    return ["ENC %s %s" % (fw.hexs(boundary), ps), "SIZE %s %s" % (fw.hexs(boundary), ps)]
+    wire = b"".join(b"--" + boundary + b"\r\n" + h + b + b"\r\n" for h, b, _ in wparts) + b"--" + boundary + b"--\r\n"
+    return ["ENC %s %s" % (fw.hexs(boundary), ps), "SIZE %s %s" % (fw.hexs(boundary), ps),
+            "SPEC %s %s" % (fw.hexs(boundary), fw.hexs(wire))]
 
 
 def compare_obs(model: str, impl: str):
@@ -730,6 +740,7 @@ def suite_roundtrip(ctx, exe, specs=None):
         blen = len(spec["boundary"]) + 4
         reps = 1 if len(wire) > 6000 else rng.choice([1, 2, 3])
         wl = model_writer_lines(spec["boundary"].encode("ascii"), wparts)
+        wl.append([h + b for h, b, _ in wparts])
         wlines.append((spec, wire, size, wl))
         for _ in range(reps):
             segs, eager = gen_segs(rng, wire, blen)
@@ -763,10 +774,20 @@ def suite_roundtrip(ctx, exe, specs=None):
                     "segments": cases[-1][0]["segs"][:8], "sched": cases[-1][0]["sched"], "impl": cases[-1][1][:300]})
     ctx.close_suite("roundtrip", len(cases))
     # writer framing + size: model encode/size against the real writer
-    ml = fw.run_model(exe, [x for (_, _, _, wl) in wlines for x in wl])
+    ml = fw.run_model(exe, [x for (_, _, _, wl) in wlines for x in wl[:3]])
     ran = 0
     for i, (spec, wire, size, wl) in enumerate(wlines):
-        enc, sz = ml[2 * i], ml[2 * i + 1]
+        enc, sz, sp = ml[3 * i], ml[3 * i + 1], ml[3 * i + 2]
+        want_blocks = wl[3]
+        delim = b"\r\n--" + spec["boundary"].encode("ascii")
+        clean = all(delim not in blk + delim[:-1] for blk in want_blocks)
+        if clean:
+            got = None if sp == "NONE" else [fw.unhex(x) for x in sp.split()[1].split(",")] if len(sp.split()) > 1 else []
+            if got != want_blocks:
+                ctx.disagreement("writer", {"suite": "writer", "spec": spec, "what": "spec_decode"}, sp[:400], str(want_blocks)[:400])
+            ctx.count("spec_decode:clean")
+        else:
+            ctx.count("spec_decode:delimiter-in-block")
         ran += 1
         ctx.case(("writer", json.dumps(spec, sort_keys=True)), nontrivial=bool(spec["parts"]))
         msz = None if sz == "NONE" else int(sz.split()[1])
@@ -779,7 +800,7 @@ def suite_roundtrip(ctx, exe, specs=None):
 
 
 def build_model():
-    return fw.ocaml_model("C19", ["Model/Multipart.vo"])
+    return fw.ocaml_model("C19", ["Model/Multipart.vo", "Model/MultipartSpec.vo"])
 
 
 def _part_content(case, i):
@@ -856,7 +877,18 @@ def sig_readline_loop_at_eof(case, params):
     return bool(api) and api[0] == "L"
 
 
+def sig_base64_short_read(case, params):
+    """read_chunk on a base64 part returns a chunk holding fewer than four base64 characters (the stream read was
+    short and _align_base64_chunk gives up), so decoding chunk by chunk fails or shifts the quartets"""
+    if case.get("violation_kind") != "decode":
+        return False
+    d = case.get("detail") or {}
+    counts = d.get("b64_counts") or []
+    return bool(d.get("per_chunk")) and any(c % 4 != 0 and c < 4 for c in counts[:-1])
+
+
 SIGNATURES = {
+    "base64_short_read": sig_base64_short_read,
     "readline_lf_boundary": sig_readline_lf_boundary,
     "disposition_semicolons": sig_disposition_semicolons,
     "disposition_leading_slash": sig_disposition_leading_slash,
